@@ -79,10 +79,14 @@ type FnCtx struct {
 	ufAxioms map[string]string // per uninterpreted function: an axiom rendered right after its declaration (range well-formedness)
 	loopWrites map[string]map[string]bool
 	curFrame *Frame
+	pureHeap    map[string][]string // pure function key -> sorted read footprint (pureheap.go)
+	pureHeapBad map[string]bool
 }
 
 type Frame struct {
 	fc       *FnCtx
+	hintCallRes []SV // results of the call a `hint after` is attached to (bound as callresult, callresult<i>)
+	noPanicOld string // ext_nopanic.go: the `nopanic when` condition of the root function, evaluated in the entry state ("" = none)
 	fn       *ssa.Function
 	spec     *FuncSpec
 	prefix   string
@@ -108,6 +112,9 @@ type Frame struct {
 	curLocalAddrs map[string]SV
 	localsSameBlock bool
 	frame *frameInfo
+	lineHintHits map[int]int // `hint at "line"` clauses: number of program points matched (ext_linehint.go)
+	lastCallRes []SV // results of the call a `hint after` clause is attached to (instr.go)
+	curVisLoop *loopInfo // the loop whose invariants are being evaluated (spec builtin visited(k), ext_crypto.go)
 }
 
 type retRec struct {
@@ -122,6 +129,7 @@ type loopInfo struct {
 	ordinal int
 	writes  map[string]bool
 	all     bool
+	entry   *State // state on entry to the loop (merged forward edges, before the havoc): spec builtin loopentry(E), see ext_loopentry.go
 }
 
 func (fc *FnCtx) emit(cmd string) {
@@ -384,7 +392,7 @@ func (fc *FnCtx) registerComp(key, sort string) {
 func (fc *FnCtx) havocComps(st *State, keys map[string]bool, all bool) {
 	if all {
 		for _, k := range fc.compList {
-			if k == "W" || strings.HasPrefix(k, "G|v|") {
+			if k == "W" || strings.HasPrefix(k, "G|v|") || strings.HasPrefix(k, "G|vis|") {
 				continue // auxiliary variables of the function under verification: no callee can write them
 			}
 			st.heap[k] = fc.fresh("H_"+mangle(k), fc.comps[k])
@@ -677,6 +685,7 @@ func (fr *Frame) walk(entry *State, params []SV, entryGuard string) {
 				for _, e := range fwd {
 					fr.checkInvariants(li, e, "inv-init")
 				}
+				li.entry = st.clone()
 				lw := fc.loopWrites[fmt.Sprintf("%s#%d", fr.prefix, b.Index)]
 				fc.havocComps(st, lw, lw["*"])
 				for _, in := range b.Instrs {
@@ -715,9 +724,13 @@ func (fr *Frame) walk(entry *State, params []SV, entryGuard string) {
 		}
 		g := fr.guard[b]
 		ghostDone := map[*GhostUpd]bool{}
+		lineHintDone := map[int]bool{}
 		for _, in := range b.Instrs {
 			if _, ok := in.(*ssa.Phi); ok {
 				continue
+			}
+			if fr.top && fr.spec != nil && fr.spec.hasLineHints() {
+				fr.lineHints(in, st, g, lineHintDone)
 			}
 			if fr.top && fr.spec != nil && len(fr.spec.GhostUpds) > 0 {
 				fr.ghostUpdates(in, st, g, ghostDone)
@@ -744,6 +757,9 @@ func (fr *Frame) walk(entry *State, params []SV, entryGuard string) {
 					}
 				}
 				e := inEdge{pred: b, pidx: pidx, guard: and(g, fr.edgeCond(b, si))}
+				if fr.top {
+					fc.cover(fmt.Sprintf("backedge@%d", b.Index), e.guard) // vacuity probe: the loop body can be completed
+				}
 				fr.checkInvariants(li, e, "inv-keep")
 				if blw := fc.loopWrites[fmt.Sprintf("%s#%d", fr.prefix, s.Index)]; blw["*"] {
 					fr.checkFrame(st, e.guard, fmt.Sprintf("L%d", li.ordinal), loopPos(li), nil)
